@@ -20,6 +20,7 @@ import GeoProofs.Lemmas.C09PExit
 import GeoProofs.Lemmas.C09PExitP
 import GeoProofs.Lemmas.C09XGlobal
 import GeoProofs.Lemmas.C09XTrace
+import GeoProofs.Lemmas.TRAN2Simplify
 import Mathlib.Tactic.NormNum
 
 namespace Geo.Proofs.C09
@@ -587,4 +588,23 @@ example : StepsOK [⟨0, 0⟩, ⟨1, 1⟩, ⟨2, 0⟩] 2 3 adjInit
     obtain ⟨rfl, rfl⟩ : l = 0 ∧ r = 2 := by omega
     norm_num [triArea, coordAt, rabs]
 
+/-! ### tie to the source -/
+
+/-- [E2] (translator tie) the selection step of `compute_rdp` — the closure folded over the interior vertices, which keeps
+`(index, distance)` when `distance >= farthest_distance` (so the LAST maximum wins) — and the ordering of `VScore`
+(`impl Ord`: areas compared in reverse, a min-heap; `impl PartialEq`: equal areas) are, in the model, the terms
+`translator/rs2lean.py` regenerates on every run from simplify.rs / simplify_vw.rs (`GeoModel/Gen/SimplifyGen.lean`): one step
+of the model's `farthestGo` IS the regenerated closure, `VScore.le` / `VScore.lt` are "not Greater" / "Less" of the
+regenerated `cmp`. A changed comparison or operand order changes the regenerated definition and this theorem stops
+checking. (The distances are square roots in the code and squared in the model; the step does not depend on which.) -/
+theorem rdpSelection_eq_source :
+    (∀ (a b : Pt) (x : RI) (rest : List RI) (pos : Nat) (acc : Nat × Rat),
+      farthestGo a b (x :: rest) pos acc
+        = farthestGo a b rest (pos + 1) (Gen.rdpFoldStep acc.1 acc.2 pos (segDist2 x.1 a b))) ∧
+    (∀ (fi : Nat) (fd : Rat) (i : Nat) (d : Rat), Gen.rdpFoldStep fi fd i d = if fd ≤ d then (i, d) else (fi, fd)) ∧
+    (∀ a b : VScore, (Gen.vscoreCmp a b != .gt) = VScore.le a b ∧ (Gen.vscoreCmp a b == .lt) = VScore.lt a b ∧
+      Gen.vscoreEq a b = (a.area == b.area)) :=
+  ⟨Geo.Proofs.TRAN2Simplify.farthestGo_cons, Geo.Proofs.TRAN2Simplify.rdpFoldStep_eq, Geo.Proofs.TRAN2Simplify.vscoreCmp_eq⟩
+
 end Geo.Proofs.C09
+
